@@ -43,7 +43,6 @@ MANIFEST = {
 
 FINDING_PARTIAL = "C18-multifile-partial"
 FINDING_COLLISION = "C18-basename-collision"
-FINDING_SELFCOPY = "C18-path-content-self-copy"
 NOBODY = 65534
 VALID_FORMATS = ("parser_mode", "yaml", "json", "json_indented")
 
@@ -550,6 +549,8 @@ def prepare(scn, fault, ro=False):
 def execute(st):
     sc, fault = st["sc"], st["fault"]
     target = os.path.join(st["out_dir"], sc["target"])
+    if sc.get("uri"):
+        target = "file://" + target       # file:// spelling of a LOCAL path: must behave exactly like the plain path
     exc = None
     patch_kind = fault["kind"] if fault.get("kind") in ("open", "write") else "none"
     with OpenPatch(st["out_dir"], patch_kind, fault.get("k", -1)) as op:
@@ -564,7 +565,7 @@ def execute(st):
     reparse_err = None
     if outcome == "ok":
         try:
-            reparsed = canon_cfg(st["parser3"].parse_path(target, with_meta=False))
+            reparsed = canon_cfg(st["parser3"].parse_path(os.path.join(st["out_dir"], sc["target"]), with_meta=False))
         except Exception as ex:  # noqa: BLE001
             reparse_err = "%s: %s" % (type(ex).__name__, str(ex)[:200])
     try:
@@ -616,10 +617,6 @@ def has_collision(model_in):
     return len(set(names)) != len(names)
 
 
-def has_self_copy(model_in):
-    return any(s["kind"] == "content" and s.get("src") == s["path"] for s in model_in["subs"])
-
-
 def judge(res, sc, fault):
     """evaluate C18 on one real run; returns list of (finding-id-or-None, description)"""
     out = []
@@ -664,8 +661,6 @@ def judge(res, sc, fault):
             fid = None
             if multi and has_collision(mi):
                 fid = FINDING_COLLISION
-            elif multi and has_self_copy(mi) and sc.get("overwrite") is True:
-                fid = FINDING_SELFCOPY
             out.append((fid, "saved path does not re-parse to the configuration (%s)" % (res["reparse_err"] or "values differ")))
     return out
 
@@ -733,13 +728,12 @@ def gen_scenario(rng):
           "pathcontent": None}
     sc["same_dir"] = rng.random() < 0.25
     sc["multifile"] = rng.choice([None, True, True, False])
-    if rng.random() < 0.15 and sc["multifile"] is not False:
-        # - a source in the output directory itself (dir=out, or inputs next to the target) would be copied onto itself:
-        #   open finding C18-path-content-self-copy, exercised from the corpus only
+    if rng.random() < 0.18 and sc["multifile"] is not False:
         # - single-file mode writes the relative path as given, which a config saved elsewhere does not resolve (C19's subject)
         # - the copy goes through text mode (universal newlines): sources without carriage returns
-        sc["pathcontent"] = {"file": "file.txt", "content": rng.choice([c for c in CONTENTS[1:] if "\r" not in c]), "dir": "in"}
-        sc["same_dir"] = False
+        # - dir=out / inputs next to the target: the file is copied onto itself (repaired defect F15s)
+        sc["pathcontent"] = {"file": "file.txt", "content": rng.choice([c for c in CONTENTS[1:] if "\r" not in c]),
+                             "dir": rng.choice(["in", "in", "out"])}
     vals = {}
     for k, kind in leaf_keys(sc):
         if rng.random() < 0.6:
@@ -754,6 +748,7 @@ def gen_scenario(rng):
     if rng.random() < 0.03:
         sc["format"] = "bogus"
     sc["overwrite"] = rng.choice([None, False, True, True])
+    sc["uri"] = rng.random() < 0.25      # target spelled file:///abs/path
     r = rng.random()
     if r < 0.78:
         sc["target"] = "main.yaml"
@@ -781,6 +776,8 @@ def gen_scenario(rng):
         # the inputs ARE pre-existing files of the output directory
         for n in input_names(sc):
             pre.pop(n, None)
+    if sc["pathcontent"] and sc["pathcontent"]["dir"] == "out":
+        pre.pop(sc["pathcontent"]["file"], None)
     return sc
 
 
@@ -851,6 +848,7 @@ def process(ctx: Ctx, cases, root, origin, readonly=False):
         ctx.hist("overwrite", {None: "default", True: "on", False: "off"}[sc.get("overwrite")])
         ctx.hist("fault", fault["kind"])
         ctx.hist("subfiles", len(mi["subs"]))
+        ctx.hist("target_spelling", "file://" if sc.get("uri") else "plain")
         if res["outcome"] != "ok":
             fa = failing_slot(mi)
             ctx.hist("failure_position", "before-first-write" if not fa else ("after-%d-subfile-writes" % min(fa, 3)))
@@ -884,14 +882,14 @@ def run(ctx: Ctx):
     repo_python_path()
     ctx.rule = ("scenario = parser with 0-3 ActionParser sub-configs (optionally nested, each loaded from its own sub-file or inline), optional dict, "
                 "jsonschema, jsonnet (__orig__) and save_path_content sub-files, values, format, multifile in {omitted,True,False}, overwrite in "
-                "{omitted,False,True}, target (new, existing, missing parent, a directory, parent not writeable), pre-existing files of arbitrary content, "
+                "{omitted,False,True}, target (new, existing, missing parent, a directory, parent not writeable; spelled as a plain path or as a file:// URI), pre-existing files of arbitrary content, "
                 "inputs next to or away from the target; for every scenario a failure is injected at EACH step (invalid value at each typed key, "
                 "unserialisable value at each Any key, Enum at each enum key, k-th open fails, k-th write fails) plus the fault-free run; each "
                 "(scenario, fault) runs the real parser.save in a temp dir and the Lean model; non-trivial = output directory holds >=1 pre-existing "
                 "file and save gets past the format/path checks; distinct by JSON of (scenario, fault)")
     ctx.assumptions = [
         "validation / serialisation outcomes and the dump texts are inputs of the model; the reference obtains them from parser.validate, parser.dump and dump_using_format on a separately loaded copy",
-        "local file system only (no fsspec/URL), no symlinks, nobody else writes to the directory during save",
+        "local file system only (plain paths and file:// URIs of local files; no remote fsspec/URL targets), no symlinks, nobody else writes to the directory during save",
         "an OS failure in the middle of write() after a successful open (class io) is outside the property; the model and the harness still track it",
         "save_path_content copies go through text mode: sources are UTF-8 text without carriage returns (newline translation is outside the model)",
     ]
